@@ -34,5 +34,16 @@ PROPS["C18"] = {
     "assumptions": [],
 }
 
+PROPS["C17"] = {
+    "level": "proof",
+    "technique": "Lean 4 proof (framing through the proved EBSP writer/reader refinement; typed payload syntaxes by bit round trip) + model-vs-code correspondence",
+    "level_text": "Model lean/Mp4ff/Model/Sei.lean transcribes WriteSEIMessages/ExtractSEIData (0xFF-run coding, MoreRbspData look-ahead with state restore, trailing bits) and the typed messages with a serialiser (136, 137, 144, AVC pic timing incl. Size()); theorems in Props/C17.lean; tie = correspondence on message lists and typed values every run; pass-through messages by direct oracle.",
+    "level_note": "Trusted: Lean kernel, allowed axioms, hand transcription validated by correspondence. HEVC pic timing / CEA-608 / registered / unregistered user data are pass-through (payload returned unchanged): oracle only.",
+    "trusted": ["Model/Sei.lean hand transcription of sei/sei.go, sei136.go, sei137.go, sei144.go, sei1_avc.go, bits/ebspreader.go (MoreRbspData)"],
+    "unmodelled": ["sei4.go/sei5.go/sei1_hevc.go decoders (pass-through: direct oracle only)", "String() methods"],
+    "partial": [],
+    "assumptions": ["typed message values are canonical (fields the syntax does not carry are zero), as produced by the decoders"],
+}
+
 # reasons for properties that are not claimed (yet)
 NOT_CLAIMED = {}
